@@ -59,6 +59,18 @@ func (t *TableDump) ToCSV(w io.Writer) error {
 				record[i] = formatCSVValue(val)
 			}
 		}
+		if len(record) == 1 && record[0] == "" {
+			// csv.Writer writes a single empty field as an empty line, which CSV readers
+			// skip: the row would be lost. Write the field quoted.
+			cw.Flush()
+			if err := cw.Error(); err != nil {
+				return err
+			}
+			if _, err := io.WriteString(w, "\"\"\n"); err != nil {
+				return err
+			}
+			continue
+		}
 		if err := cw.Write(record); err != nil {
 			return err
 		}
